@@ -285,7 +285,7 @@ def required_family(ctx, only=None):
     defaults flag of the parse methods: enumerated completely (small)"""
     import itertools
 
-    from jsonargparse import ArgumentError, ArgumentParser
+    from jsonargparse import ActionParser, ArgumentError, ArgumentParser
 
     def build():
         p = ArgumentParser(exit_on_error=False, env_prefix="APP", default_env=False)
@@ -293,6 +293,11 @@ def required_family(ctx, only=None):
         p.add_argument("--top", type=str, required=True)
         p.add_argument("--grp.need", type=int, required=True)
         p.add_argument("--opt", type=int, default=1)
+        inner = ArgumentParser(exit_on_error=False)
+        inner.add_argument("--x", type=int, required=True)
+        inner.add_argument("--y", type=int, default=2)
+        p.add_argument("--inner", action=ActionParser(parser=inner))  # an embedded parser with a required argument of its own, between the others
+        p.add_argument("--after", type=int, required=True)
         sc = p.add_subcommands(required=True)
         fit = ArgumentParser(exit_on_error=False)
         fit.add_argument("--data", type=str, required=True)
@@ -307,14 +312,19 @@ def required_family(ctx, only=None):
         sc2.add_subcommand("fast", fast)
         return p
 
-    full = {"fit": {"top": "t", "grp": {"need": 1}, "subcommand": "fit", "fit": {"data": "d"}},
-            "eval": {"top": "t", "grp": {"need": 1}, "subcommand": "eval", "eval": {"ckpt": "c", "how": "fast", "fast": {"n": 2}}}}
-    required = {"fit": [["top"], ["grp", "need"], ["fit", "data"]], "eval": [["top"], ["grp", "need"], ["eval", "ckpt"], ["eval", "fast", "n"]]}
+    full = {"fit": {"top": "t", "grp": {"need": 1}, "inner": {"x": 4}, "after": 6, "subcommand": "fit", "fit": {"data": "d"}},
+            "eval": {"top": "t", "grp": {"need": 1}, "inner": {"x": 4}, "after": 6, "subcommand": "eval", "eval": {"ckpt": "c", "how": "fast", "fast": {"n": 2}}}}
+    required = {"fit": [["top"], ["grp", "need"], ["fit", "data"], ["inner", "x"], ["after"]],
+                "eval": [["top"], ["grp", "need"], ["eval", "ckpt"], ["eval", "fast", "n"], ["inner", "x"], ["after"]]}
 
     def argv_of(obj, sub):
         out = [f"--top={obj['top']}"] if obj.get("top") is not None else []
         if (obj.get("grp") or {}).get("need") is not None:
             out.append(f"--grp.need={obj['grp']['need']}")
+        if (obj.get("inner") or {}).get("x") is not None:
+            out.append(f"--inner.x={obj['inner']['x']}")
+        if obj.get("after") is not None:
+            out.append(f"--after={obj['after']}")
         out.append(sub)
         sec = obj.get(sub) or {}
         if sub == "fit":
@@ -363,7 +373,7 @@ def required_family(ctx, only=None):
 
     if only is not None:
         return one(only)
-    for sub, path, mut, channel, defaults in itertools.product(("fit", "eval"), range(4), ("remove", "null", "remove-section"), ("object", "string", "argv", "--cfg"), (True, False)):
+    for sub, path, mut, channel, defaults in itertools.product(("fit", "eval"), range(6), ("remove", "null", "remove-section"), ("object", "string", "argv", "--cfg"), (True, False)):
         if path >= len(required[sub]):
             continue
         key = required[sub][path]
